@@ -4,7 +4,7 @@ import struct
 from ..isa import Isa
 from ..encoding import Operand, Syntax, Instruction, Constructor
 from .instructions import rm64_modes, rm32_modes, bits64  # , bits32
-from .instructions import OpcodeToken
+from .instructions import OpcodeToken, ImplicitOperands
 from .instructions import PrefixToken
 from .instructions import RexToken, ModRmToken, SibToken
 from .instructions import Imm32Token, Imm8Token
@@ -20,7 +20,7 @@ sse1_isa = Isa()
 sse2_isa = Isa()
 
 
-class SseInstruction(Instruction):
+class SseInstruction(ImplicitOperands, Instruction):
     tokens = [
         PrefixToken,
         RexToken,
@@ -172,6 +172,7 @@ class Movss2(Sse1Instruction):
     """Move scalar single-fp value"""
 
     rm = Operand("rm", xmm_single_rm_modes)
+    rm_write = True
     r = Operand("r", XmmRegisterSingle, read=True)
     syntax = Syntax(["movss", " ", rm, ",", " ", r], priority=1)
     patterns = {"prefix": 0xF3, "opcode": 0x11}
@@ -181,6 +182,7 @@ class Movsd2(Sse2Instruction):
     """Move scalar double-fp value"""
 
     rm = Operand("rm", xmm_double_rm_modes)
+    rm_write = True
     r = Operand("r", XmmRegisterDouble, read=True)
     syntax = Syntax(["movsd", " ", rm, ",", " ", r], priority=1)
     patterns = {"prefix": 0xF2, "opcode": 0x11}
